@@ -15,7 +15,7 @@
    Non-vacuity examples: C20/Examples.v. *)
 From Coq Require Import List ZArith NArith Bool.
 From TskVerif Require Import Base.Common Gen.Generated C20.Model C20.Spec C20.HartiganProofs C20.TopProofs
-  C20.BoundProofs C20.StackProofs C20.FixProofs C20.ArrayProofs C20.Refuted C20.Examples.
+  C20.BoundProofs C20.StackProofs C20.FixProofs C20.ArrayProofs C20.EndToEnd C20.Refuted C20.Examples.
 Import ListNotations.
 
 (* (a) Hartigan's invariant for the sets the code computes (polytomies, unary nodes,
@@ -198,3 +198,38 @@ Theorem c_map_mutations_eq_rose :
   | None => Err ERR_NONTERMINATION
   end.
 Proof. exact c_map_mutations_eq_rose_lemma. Qed.
+
+(* END TO END: the whole property for the C function over the arrays.  Hypotheses are about
+   the input only: the genotypes pass the entry checks ([init_sets ... = Ok], at least one
+   non-missing), a fixed ancestral state is in range, the arrays are those of a tree
+   ([arrays_okb]).  Conclusion: the function returns (a, tr) — it terminates, with no
+   out-of-bounds access in the model — such that painting reproduces every non-missing
+   observation, the order / parent links are valid for a mutation table, no transition sits
+   below a unary non-sample node, there are at most as many transitions as non-missing
+   samples, and — for the repaired code (fx = true) always, for the pinned code (fx = false)
+   when no internal sample has a missing genotype (finding F2) — the number of transitions is
+   the minimum over ALL labelings of the forest consistent with the data (the fixed ancestral
+   state when one is supplied), the minimum is attained, and no transition sits below a
+   unary sample with missing data either. *)
+Theorem c_map_mutations_sound :
+  forall (fx : bool) (ta : tree_arrays) (g : list Z) (anc : option Z) (os0 : list N) (na0 nm : Z)
+         (roots : list tree),
+  init_sets fx (ta_samples ta) g (repeat 0%N (S (length (ta_flags ta)))) 0%Z 0%Z = Ok (os0, na0, nm) ->
+  nm <> 0%Z ->
+  match anc with Some a => (0 <= a < c20_hartigan_max_alleles)%Z | None => True end ->
+  rose_of_arrays ta g = Ok roots ->
+  arrays_okb ta roots = true ->
+  exists a tr,
+    c_map_mutations_gen fx ta g anc = Ok (Z.of_N a, tr) /\
+    match anc with Some x => Z.of_N a = x | None => True end /\
+    consistent_list roots (map (fun r => paint tr r a) roots) = true /\
+    parents_before tr 0 = true /\ forallb (fun r => parents_ok tr r (-1)) roots = true /\
+    nodupb (map tr_node tr) = true /\
+    forallb (unary_ok true tr) roots = true /\
+    (length tr <= forest_num_obs roots)%nat /\
+    ((fx = true \/ forallb no_internal_missing roots = true) ->
+       (forall a' ls, match anc with Some x => a' = Z.to_N x | None => True end ->
+           consistent_list roots ls = true -> (length tr <= forest_changes a' ls)%nat) /\
+       (exists ls, consistent_list roots ls = true /\ forest_changes a ls = length tr) /\
+       forallb (unary_ok false tr) roots = true).
+Proof. exact c_map_mutations_sound_lemma. Qed.
